@@ -14,3 +14,13 @@ def near_uniform_singular_values(inputs, config):
     L = _mat(inputs, 'a_L', d, d)
     s = np.linalg.svd(L, compute_uv=False)
     return bool(np.allclose(s, s[0]) and not np.all(s == s[0]))
+
+
+def negative_sine_rotation(inputs, config):
+    """the recorded C20 finding: 2-D rotations with sin(theta) < 0."""
+    import math
+    if 'theta' in inputs:
+        return math.sin(inputs['theta']) < 0
+    if 'r_s' in inputs:
+        return inputs['r_s'] < 0
+    return False
